@@ -9,8 +9,11 @@ WT = f"/tmp/wt/verify_{sid}"
 def sh(cmd, **kw):
     return subprocess.run(cmd, shell=True, capture_output=True, text=True, **kw)
 sh(f"git -C /repo worktree remove --force {WT}")
-r = sh(f"git -C /repo worktree add -q {WT} HEAD"); assert r.returncode == 0, r.stderr
-meta = {"seed": sid, "property": prop, "repo_head": sh("git -C /repo rev-parse --short HEAD").stdout.strip()}
+BASE = os.environ.get("SEED_BASE", "HEAD")  # a seeded change that a later fix: commit made moot is verified against its own base
+r = sh(f"git -C /repo worktree add -q {WT} {BASE}"); assert r.returncode == 0, r.stderr
+meta = {"seed": sid, "property": prop, "repo_head": sh(f"git -C /repo rev-parse --short {BASE}").stdout.strip()}
+if BASE != "HEAD":
+    meta["base_note"] = f"verified against {BASE}: on later commits the change no longer breaks the property (see notes)"
 try:
     env = dict(os.environ, PYTHONPATH=f"{WT}/src", PYTHONHASHSEED="0")
     demo = os.path.join(src_dir, "demo_test.py")
